@@ -574,3 +574,89 @@ def gen_wild(rnd, n, hostile=False, ext=()):
     for _ in range(n):
         steps.append(["g", wild_command(rnd, hostile, ext)])
     return steps
+
+
+# ------------------------------------------------------------------ exhaustive retraction-automaton class (C01, C04, C05)
+
+# letters: R retract, U recover, Pi/Po printing move to a point inside/outside the region, Ti/To travel inside/outside
+_LET = {0: ["R", "Pi", "Po", "Ti", "To"], 1: ["U", "Ti", "To"]}
+_NEXT = {"R": 1, "U": 0}
+_COUNT = {}
+
+
+def _count(length, state):
+    if length == 0:
+        return 1
+    key = (length, state)
+    if key not in _COUNT:
+        _COUNT[key] = sum(_count(length - 1, _NEXT.get(l, state)) for l in _LET[state])
+    return _COUNT[key]
+
+
+def exhaustive_total(maxlen):
+    return sum(_count(L, 0) for L in range(1, maxlen + 1))
+
+
+def exhaustive_sequence(index, maxlen):
+    """The index-th valid event sequence (matched cycles by construction) of length 1..maxlen, or None when exhausted."""
+    for L in range(1, maxlen + 1):
+        n = _count(L, 0)
+        if index < n:
+            seq, state = [], 0
+            for pos in range(L):
+                for l in _LET[state]:
+                    c = _count(L - pos - 1, _NEXT.get(l, state))
+                    if index < c:
+                        seq.append(l)
+                        state = _NEXT.get(l, state)
+                        break
+                    index -= c
+            return seq
+        index -= n
+    return None
+
+
+def exhaustive_case(index, maxlen, firmware, variant=0):
+    """Concrete program for the index-th event sequence around one rectangular region."""
+    seq = exhaustive_sequence(index, maxlen)
+    if seq is None:
+        return None
+    inside = [(25.0, 25.0), (24.0, 27.0), (27.5, 22.5)]
+    outside = [(10.0, 10.0), (40.0, 12.0), (12.0, 41.0)]
+    steps = [["g", "G28"], ["g", "G1 X5 Y5 Z0.2 F1200"]]
+    e = 0.0
+    ni = no = 0
+    pre = None
+    for l in seq:
+        if l == "R":
+            if firmware:
+                steps.append(["g", "G10"])
+            else:
+                pre = e
+                e = round(e - 3.048, 4)
+                steps.append(["g", "G1 E%s F2400" % fmt(e, 4)])
+        elif l == "U":
+            if firmware:
+                steps.append(["g", "G11"])
+            else:
+                e = pre
+                steps.append(["g", "G1 E%s F2400" % fmt(e, 4)])
+        else:
+            if l[1] == "i":
+                x, y = inside[ni % len(inside)]
+                ni += 1
+            else:
+                x, y = outside[no % len(outside)]
+                no += 1
+            if l[0] == "P":
+                e = round(e + 0.508, 4)
+                steps.append(["g", "G1 X%s Y%s E%s" % (fmt(x, 2), fmt(y, 2), fmt(e, 4))])
+            else:
+                z = " Z0.6" if (variant and (ni + no) % 3 == 0) else ""
+                steps.append(["g", "G0 X%s Y%s%s" % (fmt(x, 2), fmt(y, 2), z)])
+    case = dict(cls="exhaustive-automaton", settings={}, regions=[["rect", 20.0, 20.0, 30.0, 30.0, "r0"]], steps=steps,
+                seq="".join(seq), exhaustive_index=index)
+    if firmware:
+        case["fw"] = True
+        case["fwparam"] = ""
+    return case
